@@ -82,6 +82,19 @@ def hyp_shard(part, tier, shard, nshards, seed, stats, deadline, known, examples
     import hypothesis
     from hypothesis import given, settings, HealthCheck, Phase
 
+    # Hypothesis puts repr(strategy) into the note it attaches to an exception raised while drawing; for the recursive tree strategies that repr is
+    # hundreds of megabytes (MemoryError under the address-space limit, which then hides the original exception): keep composite reprs short
+    try:
+        from hypothesis.strategies._internal import strategies as _S
+        from hypothesis.strategies._internal.lazy import LazyStrategy as _L
+        from hypothesis.strategies._internal.deferred import DeferredStrategy as _D
+
+        _S.OneOfStrategy.__repr__ = lambda self: "one_of(<%d alternatives>)" % len(self.original_strategies)
+        _L.__repr__ = lambda self: "%s(...)" % getattr(self.function, "__name__", "lazy")
+        _D.__repr__ = lambda self: "deferred(...)"
+    except Exception:  # noqa
+        pass
+
     strat = part.strategy(tier)
     excluded = set()
     state = {"dead": False, "fail_t": None}
